@@ -2,6 +2,7 @@
 package data
 
 import (
+	"encoding/json"
 	"math"
 	"reflect"
 	"sort"
@@ -57,6 +58,23 @@ func (v Map) Key(k string) Value {
 
 func (v Undefined) MarshalJSON() ([]byte, error) { return []byte("null"), nil }
 func (v Null) MarshalJSON() ([]byte, error)      { return []byte("null"), nil }
+
+// A nil List is an empty list and a nil Map an empty map (keys() of an empty
+// map and range() without elements return nil Lists); encoding/json would
+// write a nil slice or map as null.
+func (v List) MarshalJSON() ([]byte, error) {
+	if v == nil {
+		return []byte("[]"), nil
+	}
+	return json.Marshal([]Value(v))
+}
+
+func (v Map) MarshalJSON() ([]byte, error) {
+	if v == nil {
+		return []byte("{}"), nil
+	}
+	return json.Marshal(map[string]Value(v))
+}
 
 // Truthy ----------
 
